@@ -590,6 +590,9 @@ func (c *TCPConn) Reset() {
 	c.pair.reset()
 }
 
+// Peer returns the other endpoint of the connection (the harness configures the agent's side through it)
+func (c *TCPConn) Peer() *TCPConn { return c.peer }
+
 // IsClosed reports whether this endpoint was closed locally
 func (c *TCPConn) IsClosed() bool { return c.closed }
 
